@@ -6,7 +6,7 @@ From OV Require Import Base.Panic Base.Arith Model.Vector Model.Matrix Model.Spa
   Proofs.Iter Proofs.IterField Proofs.IterInst Proofs.IterR Proofs.IterRows.
 From OV Require Import Proofs.SparseBase Proofs.SparseMul Proofs.IterSparse Proofs.IterSparseErr Proofs.IterSparseR
   Proofs.IterSparseBreakdown Proofs.IterCGExamples.
-From OV Require Import Proofs.SparseBase Proofs.SparseMul Proofs.IterR Proofs.IterSparse Proofs.IterSparseR Proofs.IterSparseBreakdown Proofs.IterSparseBreakdownField Proofs.IterSparseBreakdownQMR
+From OV Require Import Proofs.SparseBase Proofs.SparseMul Proofs.IterR Proofs.IterSparse Proofs.IterSparseR Proofs.IterSparseBreakdown Proofs.IterSparseBreakdownField Proofs.IterSparseBreakdownQMR Proofs.IterSparseBreakdownTri
   Proofs.IterCGVec Proofs.IterCGDim Proofs.IterCG Proofs.IterCGR Proofs.IterCGBi Proofs.IterCGSparse Proofs.IterCGExamples.
 Import ListNotations.
 Module C08.
@@ -868,5 +868,53 @@ Example qmr_left_eigenvector_breakdown_sparse_nonvacuous : wfS kr_s /\ sp_rows k
   (let r0 := @zipw AR Rminus [2%R; (-2)%R] (@sp_apply AR kr_s [0%R; 0%R]) in
    @sp_tapply AR kr_s r0 = @vscale AR r0 2%R /\ r0 <> repeat 0%R (sp_rows kr_s)).
 Proof. split; [exact kr_s_wf|]. split; [reflexivity | exact kr_left_eigenvector]. Qed.
+
+(* a SYNTACTIC class of such starts, read off the matrix entries: if the last row of the matrix is (0, ..., 0, a) -- every upper triangular
+   matrix -- then with b = c e_n (last_unit n c: supported on the last coordinate) and the zero guess the initial residual is b itself and
+   A^T b = a b *)
+Theorem last_row_gives_left_eigenvector : forall (A : Arith), RingLaws A -> forall (s : sparse A) n c,
+  sp_rows s = S n -> sp_cols s = S n -> (forall j, j < n -> sp_entry s n j = zero) ->
+  let r0 := zipw sub (last_unit n c) (sp_apply s (repeat zero (S n))) in
+  r0 = last_unit n c /\ sp_tapply s r0 = vscale r0 (sp_entry s n n).
+Proof. intros A RL s n c. exact (last_row_start RL s n c). Qed.
+Check last_row_gives_left_eigenvector : forall (A : Arith), RingLaws A -> forall (s : sparse A) n c,
+  sp_rows s = S n -> sp_cols s = S n -> (forall j, j < n -> sp_entry s n j = zero) ->
+  let r0 := zipw sub (last_unit n c) (sp_apply s (repeat zero (S n))) in
+  r0 = last_unit n c /\ sp_tapply s r0 = vscale r0 (sp_entry s n n).
+Print Assumptions last_row_gives_left_eigenvector.
+Example last_row_gives_left_eigenvector_nonvacuous : sp_rows kr_s = 2 /\ sp_cols kr_s = 2 /\ (forall j, j < 1 -> @sp_entry AR kr_s 1 j = 0%R) /\ @sp_entry AR kr_s 1 1 <> 0%R.
+Proof. split; [reflexivity|]. split; [reflexivity | exact kr_last_row]. Qed.
+
+(* hence, over R: for EVERY well-formed storage of order n+1 whose last row is (0,...,0,a), a <> 0 -- strictly diagonally dominant or not --,
+   b = c e_n (c <> 0), x0 = 0: solve_qmr performs exactly one step and then gives up (or was already content).  Concrete f64 run on the
+   implementation: [[2,1],[0,1]] x = (0,1): solve_qmr -> Err(0.7071), x = (0, 0.5) (solution (-0.5, 1)); solve_bicg -> Err(NaN), x = (NaN, NaN) *)
+Theorem qmr_last_row_breakdown : forall (s : sparse AR) n (c : R) max (tol : R),
+  wfS s -> sp_rows s = S n -> sp_cols s = S n ->
+  (forall j, j < n -> @sp_entry AR s n j = 0%R) -> @sp_entry AR s n n <> 0%R -> c <> 0%R -> 2 <= max ->
+  exists res x g, @run_sparse SAR QMR s (@last_unit AR n c) (repeat 0%R (S n)) max tol = Ok (res, x, g) /\
+    (res = IOk 0 \/ res = IOk 1 \/ (exists e, res = IErr e /\ (g_exit g = 20 \/ g_exit g = 21))).
+Proof. intros s n c max tol. exact (qmr_last_row_breakdown s n c max tol). Qed.
+Check qmr_last_row_breakdown : forall (s : sparse AR) n (c : R) max (tol : R),
+  wfS s -> sp_rows s = S n -> sp_cols s = S n ->
+  (forall j, j < n -> @sp_entry AR s n j = 0%R) -> @sp_entry AR s n n <> 0%R -> c <> 0%R -> 2 <= max ->
+  exists res x g, @run_sparse SAR QMR s (@last_unit AR n c) (repeat 0%R (S n)) max tol = Ok (res, x, g) /\
+    (res = IOk 0 \/ res = IOk 1 \/ (exists e, res = IErr e /\ (g_exit g = 20 \/ g_exit g = 21))).
+Print Assumptions qmr_last_row_breakdown.
+Example qmr_last_row_breakdown_nonvacuous : wfS kr_s /\ sp_rows kr_s = 2 /\ sp_cols kr_s = 2 /\ (forall j, j < 1 -> @sp_entry AR kr_s 1 j = 0%R) /\ @sp_entry AR kr_s 1 1 <> 0%R.
+Proof. split; [exact kr_s_wf|]. split; [reflexivity|]. split; [reflexivity | exact kr_last_row]. Qed.
+
+(* ... and over any field BiCGSTAB never performs a second step on such an input *)
+Theorem bicgstab_last_row_breakdown : forall (A : SArith) (FL : FieldLaws (SA A)) (s : sparse (SA A)) n c max tol res x g,
+  wfS s -> sp_rows s = S n -> sp_cols s = S n ->
+  (forall j, j < n -> sp_entry s n j = zero) -> 2 <= max ->
+  run_sparse BiCGSTAB s (last_unit n c) (repeat zero (S n)) max tol = Ok (res, x, g) ->
+  res = IOk 0 \/ res = IOk 1 \/ (exists e, res = IErr e /\ (g_exit g = 10 \/ g_exit g = 11)).
+Proof. intros A FL s n c max tol res x g. exact (bicgstab_last_row_breakdown FL s n c max tol res x g). Qed.
+Check bicgstab_last_row_breakdown : forall (A : SArith) (FL : FieldLaws (SA A)) (s : sparse (SA A)) n c max tol res x g,
+  wfS s -> sp_rows s = S n -> sp_cols s = S n ->
+  (forall j, j < n -> sp_entry s n j = zero) -> 2 <= max ->
+  run_sparse BiCGSTAB s (last_unit n c) (repeat zero (S n)) max tol = Ok (res, x, g) ->
+  res = IOk 0 \/ res = IOk 1 \/ (exists e, res = IErr e /\ (g_exit g = 10 \/ g_exit g = 11)).
+Print Assumptions bicgstab_last_row_breakdown.
 
 End C09.
